@@ -73,6 +73,13 @@ def s1(rep, w):
     closes = [bi for bi, t in cu.calls() if callee_name(t) == 'yarel::object::ObjUpvalue::close']
     loops = any(bi in cu.reachable_blocks(s) for bi in cu.normal_blocks() for s in cu.succs()[bi])
     r.check(bool(closes) and loops, 'close_upvalues walks the open list and closes', 'close_upvalues no longer loops over the open-upvalue list calling close()', cu.loc())
+    # close_upvalues_for_frame is close_upvalues(slot base of the current frame), unconditionally
+    cff = w.require_fn('yarel::object::ObjFiber::close_upvalues_for_frame', 'C06')
+    forg = origins(cff)
+    inner = [(bi, t) for bi, t in cff.calls() if callee_name(t) == 'yarel::object::ObjFiber::close_upvalues']
+    ok_cff = bool(inner) and c01.all_paths_hit(cff, None, {bi for bi, _ in inner}) and all(_SB in operand_fields(cff, forg, t['args'][1]) for _, t in inner)
+    r.check(ok_cff, 'close_upvalues_for_frame = close_upvalues(current frame\'s slot base) on every path', 'close_upvalues_for_frame skips the closing on some path (or closes from another '
+            'height): a frame can return with open upvalues still pointing at its slots - for the body frame of a fiber, into a stack that dies with the fiber', cff.loc())
     cl = w.require_fn('yarel::object::ObjUpvalue::close', 'C06')
     gets = [bi for bi, t in cl.calls() if callee_name(t) == 'yarel::object::ObjUpvalue::get']
     closed = any(s.get('r', {}).get('rv') == 'agg' and s['r'].get('v') == 'Closed' for b in cl.blocks for s in b['s'])
@@ -151,6 +158,32 @@ def s2(rep, w):
             ok = True
     r.check(ok, 'emit_scope_end: is_captured ? CloseUpvalue : Pop', 'the opcode chosen for a local leaving scope no longer follows its '
             'is_captured flag (captured -> CloseUpvalue, otherwise Pop)', f.loc())
+    # ... and on *every* path that drops locals (scope end, break, continue): each place that produces a Pop for a local is on the
+    # not-captured edge of such a test, each CloseUpvalue on the captured edge
+    dom = f.dominators()
+    edges = {'Pop': set(), 'CloseUpvalue': set()}
+    for bi in f.normal_blocks():
+        t = f.blocks[bi]['t']
+        if t['t'] == 'switch' and 'is_captured' in operand_fields(f, org, t['d']):
+            for v, cb in t['cases']:
+                if v == 0:
+                    edges['Pop'].add(cb)
+            edges['CloseUpvalue'].add(t['else'])
+    producers = []
+    for bi in f.normal_blocks():
+        for s_ in f.blocks[bi]['s']:
+            rr = s_.get('r', {})
+            if rr.get('rv') == 'agg' and rr.get('adt') == 'yarel::chunk::OpCode' and rr.get('v') in edges:
+                producers.append((bi, rr['v']))
+        t = f.blocks[bi]['t']
+        if t['t'] == 'call' and callee_name(t) == P + 'emit_byte' and len(t['args']) > 1:
+            opn, _ = emit.operand_opcode(w, f, bi, t['args'][1])
+            if opn in edges and not any(b2 == bi for b2, _ in producers):
+                producers.append((bi, opn))
+    bad = [(bi, opn) for (bi, opn) in producers if not any(e in dom.get(bi, ()) for e in edges[opn])]
+    r.check(bool(producers) and not bad, 'emit_scope_end: every Pop / CloseUpvalue is chosen under the local\'s is_captured test',
+            'emit_scope_end produces %s without consulting is_captured on that path (e.g. the break / continue path): a captured loop-body variable is popped while its '
+            'upvalue stays open, and closures read whatever reuses the slot' % sorted({o for _, o in bad}), f.loc())
     # who may write Local.is_captured
     ws = {}
     for (g, sp, kind) in c01.field_writers(w, 'yarel::compiler::Local', 'is_captured'):
@@ -282,6 +315,19 @@ def s4(rep, w):
                 roots = {q[0] for q in org.get(d['l'], ())}
                 if not any(x[0] == 'call' and x[2].endswith('Root::<T>::new') for x in roots):
                     pred_link = True
+    # insertion keeps the rest of the list: on every path from the creation of the new node to the return, the node's `next` is set
+    created = [bi for bi, t in cap.calls() if (callee_name(t) or '').endswith('Root::<T>::new')]
+    own_next = set()
+    for bi in cap.normal_blocks():
+        for s_ in cap.blocks[bi]['s']:
+            d = s_.get('d', {})
+            if d.get('p') and isinstance(d['p'][-1], dict) and d['p'][-1].get('n') == 'next' and c01.base_type_before_last(cap, d) == 'yarel::object::ObjUpvalue':
+                roots = {q[0] for q in org.get(d['l'], ())}
+                if any(x[0] == 'call' and x[2].endswith('Root::<T>::new') for x in roots):
+                    own_next.add(bi)
+    r.check(bool(created) and bool(own_next) and all(c01.all_paths_hit(cap, cb, own_next) for cb in created),
+            'capture_upvalue links the new upvalue to its successor on every path', 'on some path capture_upvalue inserts the new upvalue without setting its `next`: '
+            'the upvalues behind it fall off the open list and are never closed when their scope ends', cap.loc())
     if early:
         r.check(ordered_cmp, 'capture_upvalue searches the list with an ordering comparison on slot addresses',
                 'close_upvalues stops at the first entry below its threshold (it assumes descending address order) but capture_upvalue no longer '
